@@ -301,6 +301,10 @@ func runCase(c *common.Ctx, ct caseT, r *common.Rand, cf *common.CaseFile) error
 		}
 		return nil
 	}
+	// a valid image is taken by a name that holds no database (never created, or dropped), whatever its page size
+	if ct.Bad == "" && (ct.Target == "absent" || ct.Target == "dropped") {
+		c.Violate(key("valid-refused"), fmt.Sprintf("a valid %d-page image with %d-byte pages was refused by the %s database name: %v", ct.ImageN, ct.ImagePS, ct.Target, impErr), rep)
+	}
 	// failed import: nothing may have changed
 	if after != before {
 		c.Violate(key("failed-changed-position"), fmt.Sprintf("failed import (%v) changed the position from %v to %v", impErr, before, after), rep)
@@ -386,6 +390,9 @@ func Run(c *common.Ctx) error {
 		}
 	}
 	c.Sample(map[string]any{"case": cases[2], "cases": len(cases)})
+	if err := exportDuringCommit(c, c.Rng.Fork()); err != nil {
+		return err
+	}
 	if c.Thorough() {
 		if err := lockPageImport(c, c.Rng.Fork()); err != nil {
 			return err
